@@ -73,10 +73,7 @@ def run(c):
         key = "%s:%s:%s:%s" % (e.get("op"), e.get("res"), e.get("res_reparsed", "-"), ",".join(facts) or ("dd/entries" if out else "-"))
         seen[key] = seen.get(key, 0) + 1
         if seen[key] <= 2:
-            r2, _ = c.run_worker("pesign", [s], parallel=1, env=env)
-            ev2 = [{k: v for k, v in x.items() if k not in ("sc", "panic", "ev", "i", "img", "err")} for x in r2.get(s["sc"], [])]
-            if not c.validate_traces("PeSignTrace", "PeSignTrace.cfg", ev2):
-                raise vf.FrameworkError("rejection not reproduced")
+            c.reproduce_trace("pesign", s["sc"], "PeSignTrace", "PeSignTrace.cfg", ("sc", "panic", "ev", "i", "img", "err"), env=env)
         c.report(key, "step %s(%s) -> %s / after re-parse %s; projection of Bytes(): %s" % (e.get("op"), e.get("c"), e.get("res"), e.get("res_reparsed"), json.dumps(out)[:300]),
                  dict({"scenario": s, "event": e}, **c.rp("pesign", s, validate=("PeSignTrace", "PeSignTrace.cfg"), strip=("sc", "panic", "ev", "i", "img", "err"))))
     c.cov["evaluations"] = len(scen)
